@@ -1,4 +1,10 @@
 
+(** val negb : bool -> bool **)
+
+let negb = function
+| true -> false
+| false -> true
+
 type nat =
 | O
 | S of nat
@@ -47,6 +53,39 @@ module Coq__1 = struct
 end
 include Coq__1
 
+(** val eqb : bool -> bool -> bool **)
+
+let eqb b1 b2 =
+  if b1 then b2 else if b2 then false else true
+
+module Nat =
+ struct
+  (** val eqb : nat -> nat -> bool **)
+
+  let rec eqb n0 m =
+    match n0 with
+    | O -> (match m with
+            | O -> true
+            | S _ -> false)
+    | S n' -> (match m with
+               | O -> false
+               | S m' -> eqb n' m')
+
+  (** val leb : nat -> nat -> bool **)
+
+  let rec leb n0 m =
+    match n0 with
+    | O -> true
+    | S n' -> (match m with
+               | O -> false
+               | S m' -> leb n' m')
+
+  (** val ltb : nat -> nat -> bool **)
+
+  let ltb n0 m =
+    leb (S n0) m
+ end
+
 (** val map : ('a1 -> 'a2) -> 'a1 list -> 'a2 list **)
 
 let rec map f = function
@@ -58,6 +97,12 @@ let rec map f = function
 let rec flat_map f = function
 | [] -> []
 | x :: t -> app (f x) (flat_map f t)
+
+(** val filter : ('a1 -> bool) -> 'a1 list -> 'a1 list **)
+
+let rec filter f = function
+| [] -> []
+| x :: l0 -> if f x then x :: (filter f l0) else filter f l0
 
 (** val combine : 'a1 list -> 'a2 list -> ('a1 * 'a2) list **)
 
@@ -152,6 +197,13 @@ module Pos =
     | XO p -> XO (mul p y)
     | XH -> y
 
+  (** val iter : ('a1 -> 'a1) -> 'a1 -> positive -> 'a1 **)
+
+  let rec iter f x = function
+  | XI n' -> f (iter f (iter f x n') n')
+  | XO n' -> iter f (iter f x n') n'
+  | XH -> f x
+
   (** val compare_cont : comparison -> positive -> positive -> comparison **)
 
   let rec compare_cont r x y =
@@ -207,6 +259,38 @@ module Pos =
   let rec of_succ_nat = function
   | O -> XH
   | S x -> succ (of_succ_nat x)
+ end
+
+module N =
+ struct
+  (** val compare : n -> n -> comparison **)
+
+  let compare n0 m =
+    match n0 with
+    | N0 -> (match m with
+             | N0 -> Eq
+             | Npos _ -> Lt)
+    | Npos n' -> (match m with
+                  | N0 -> Gt
+                  | Npos m' -> Pos.compare n' m')
+
+  (** val eqb : n -> n -> bool **)
+
+  let eqb n0 m =
+    match n0 with
+    | N0 -> (match m with
+             | N0 -> true
+             | Npos _ -> false)
+    | Npos p -> (match m with
+                 | N0 -> false
+                 | Npos q -> Pos.eqb p q)
+
+  (** val ltb : n -> n -> bool **)
+
+  let ltb x y =
+    match compare x y with
+    | Lt -> true
+    | _ -> false
  end
 
 module Z =
@@ -296,6 +380,18 @@ module Z =
        | Zpos y' -> Zneg (Pos.mul x' y')
        | Zneg y' -> Zpos (Pos.mul x' y'))
 
+  (** val pow_pos : z -> positive -> z **)
+
+  let pow_pos z0 =
+    Pos.iter (mul z0) (Zpos XH)
+
+  (** val pow : z -> z -> z **)
+
+  let pow x = function
+  | Z0 -> Zpos XH
+  | Zpos p -> pow_pos x p
+  | Zneg _ -> Z0
+
   (** val compare : z -> z -> comparison **)
 
   let compare x y =
@@ -366,6 +462,12 @@ module Z =
   | Zpos p -> Pos.to_nat p
   | _ -> O
 
+  (** val to_N : z -> n **)
+
+  let to_N = function
+  | Zpos p -> Npos p
+  | _ -> N0
+
   (** val of_nat : nat -> z **)
 
   let of_nat = function
@@ -428,6 +530,96 @@ module Z =
 
 type str = n list
 
+(** val str_eqb : str -> str -> bool **)
+
+let rec str_eqb a b =
+  match a with
+  | [] -> (match b with
+           | [] -> true
+           | _ :: _ -> false)
+  | x :: a' ->
+    (match b with
+     | [] -> false
+     | y :: b' -> (&&) (N.eqb x y) (str_eqb a' b'))
+
+(** val str_ltb : str -> str -> bool **)
+
+let rec str_ltb a b =
+  match a with
+  | [] -> (match b with
+           | [] -> false
+           | _ :: _ -> true)
+  | x :: a' ->
+    (match b with
+     | [] -> false
+     | y :: b' ->
+       if N.ltb x y then true else if N.eqb x y then str_ltb a' b' else false)
+
+type jperr =
+| ESyntax
+| EType
+| EIndex
+| EName
+| ELexer
+| ERecursion
+
+type pyexn =
+| XOverflow
+| XTypeError
+| XKeyError
+| XIndexError
+| XAttribute
+| XValue
+| XRecursion
+| XStopIteration
+| XAssertion
+
+type 'a result =
+| Ok of 'a
+| Err of jperr * z option
+| Crash of pyexn
+| OutOfFuel
+
+(** val bind : 'a1 result -> ('a1 -> 'a2 result) -> 'a2 result **)
+
+let bind r f =
+  match r with
+  | Ok a -> f a
+  | Err (c, o) -> Err (c, o)
+  | Crash x -> Crash x
+  | OutOfFuel -> OutOfFuel
+
+(** val jperr_code : jperr -> z **)
+
+let jperr_code = function
+| ESyntax -> Zpos XH
+| EType -> Zpos (XO XH)
+| EIndex -> Zpos (XI XH)
+| EName -> Zpos (XO (XO XH))
+| ELexer -> Zpos (XI (XO XH))
+| ERecursion -> Zpos (XO (XI XH))
+
+(** val pyexn_code : pyexn -> z **)
+
+let pyexn_code = function
+| XOverflow -> Zpos XH
+| XTypeError -> Zpos (XO XH)
+| XKeyError -> Zpos (XI XH)
+| XIndexError -> Zpos (XO (XO XH))
+| XAttribute -> Zpos (XI (XO XH))
+| XValue -> Zpos (XO (XI XH))
+| XRecursion -> Zpos (XI (XI XH))
+| XStopIteration -> Zpos (XO (XO (XO XH)))
+| XAssertion -> Zpos (XI (XO (XO XH)))
+
+(** val flat_mapM :
+    ('a1 -> 'a2 list result) -> 'a1 list -> 'a2 list result **)
+
+let rec flat_mapM f = function
+| [] -> Ok []
+| x :: xs ->
+  bind (f x) (fun y -> bind (flat_mapM f xs) (fun ys -> Ok (app y ys)))
+
 (** val zlen : 'a1 list -> z **)
 
 let zlen l =
@@ -445,6 +637,13 @@ let rec znth_aux l i =
 let znth l i =
   if Z.ltb i Z0 then None else znth_aux l i
 
+(** val find_assoc : str -> (str * 'a1) list -> 'a1 option **)
+
+let rec find_assoc k = function
+| [] -> None
+| p :: m' ->
+  let (k', v) = p in if str_eqb k k' then Some v else find_assoc k m'
+
 type num =
 | NInt of z
 | NFlt of z * z
@@ -459,6 +658,96 @@ type json =
 | JArr of json list
 | JObj of (str * json) list
 
+type xval =
+| XFin of z * z
+| XInf of bool
+
+(** val num_xval : num -> xval **)
+
+let num_xval = function
+| NInt z0 -> XFin (z0, Z0)
+| NFlt (m, e) -> XFin (m, e)
+| NNegZero -> XFin (Z0, Z0)
+| NInf s -> XInf s
+
+(** val fin_compare : z -> z -> z -> z -> comparison **)
+
+let fin_compare m1 e1 m2 e2 =
+  if Z.leb e1 e2
+  then Z.compare m1 (Z.mul m2 (Z.pow (Zpos (XO XH)) (Z.sub e2 e1)))
+  else Z.compare (Z.mul m1 (Z.pow (Zpos (XO XH)) (Z.sub e1 e2))) m2
+
+(** val xval_compare : xval -> xval -> comparison **)
+
+let xval_compare a b =
+  match a with
+  | XFin (m1, e1) ->
+    (match b with
+     | XFin (m2, e2) -> fin_compare m1 e1 m2 e2
+     | XInf neg -> if neg then Gt else Lt)
+  | XInf neg ->
+    if neg
+    then (match b with
+          | XFin (_, _) -> Lt
+          | XInf neg0 -> if neg0 then Eq else Lt)
+    else (match b with
+          | XFin (_, _) -> Gt
+          | XInf neg0 -> if neg0 then Gt else Eq)
+
+(** val num_compare : num -> num -> comparison **)
+
+let num_compare a b =
+  xval_compare (num_xval a) (num_xval b)
+
+(** val num_eqb : num -> num -> bool **)
+
+let num_eqb a b =
+  match num_compare a b with
+  | Eq -> true
+  | _ -> false
+
+(** val num_ltb : num -> num -> bool **)
+
+let num_ltb a b =
+  match num_compare a b with
+  | Lt -> true
+  | _ -> false
+
+(** val num_is_zero : num -> bool **)
+
+let num_is_zero a =
+  num_eqb a (NInt Z0)
+
+type key =
+| KName of str
+| KIdx of z
+
+type node = key list * json
+
+(** val is_container : json -> bool **)
+
+let is_container = function
+| JArr _ -> true
+| JObj _ -> true
+| _ -> false
+
+(** val enum_from : z -> 'a1 list -> (z * 'a1) list **)
+
+let rec enum_from i = function
+| [] -> []
+| x :: xs -> (i, x) :: (enum_from (Z.add i (Zpos XH)) xs)
+
+(** val children : node -> node list **)
+
+let children n0 =
+  match snd n0 with
+  | JArr l ->
+    map (fun ie -> ((app (fst n0) ((KIdx (fst ie)) :: [])), (snd ie)))
+      (enum_from Z0 l)
+  | JObj m ->
+    map (fun kv -> ((app (fst n0) ((KName (fst kv)) :: [])), (snd kv))) m
+  | _ -> []
+
 type 'a dec = z list -> ('a * z list) option
 
 (** val dec_z : z dec **)
@@ -466,6 +755,18 @@ type 'a dec = z list -> ('a * z list) option
 let dec_z = function
 | [] -> None
 | x :: r -> Some (x, r)
+
+(** val dec_bool : bool dec **)
+
+let dec_bool = function
+| [] -> None
+| x :: r -> Some ((negb (Z.eqb x Z0)), r)
+
+(** val dec_nat : nat dec **)
+
+let dec_nat = function
+| [] -> None
+| x :: r -> Some ((Z.to_nat x), r)
 
 (** val dec_opt : 'a1 dec -> 'a1 option dec **)
 
@@ -479,10 +780,129 @@ let dec_opt d = function
       | Some p -> let (x, r') = p in Some ((Some x), r')
       | None -> None))
 
+(** val dec_n : 'a1 dec -> nat -> z list -> ('a1 list * z list) option **)
+
+let rec dec_n d n0 l =
+  match n0 with
+  | O -> Some ([], l)
+  | S n' ->
+    (match d l with
+     | Some p ->
+       let (x, r) = p in
+       (match dec_n d n' r with
+        | Some p0 -> let (xs, r') = p0 in Some ((x :: xs), r')
+        | None -> None)
+     | None -> None)
+
+(** val dec_list : 'a1 dec -> 'a1 list dec **)
+
+let dec_list d = function
+| [] -> None
+| n0 :: r -> dec_n d (Z.to_nat n0) r
+
+(** val dec_cp : n dec **)
+
+let dec_cp = function
+| [] -> None
+| x :: r -> Some ((Z.to_N x), r)
+
+(** val dec_str : str dec **)
+
+let dec_str =
+  dec_list dec_cp
+
+(** val dec_pair : 'a1 dec -> 'a2 dec -> ('a1 * 'a2) dec **)
+
+let dec_pair da db l =
+  match da l with
+  | Some p ->
+    let (a, r) = p in
+    (match db r with
+     | Some p0 -> let (b, r') = p0 in Some ((a, b), r')
+     | None -> None)
+  | None -> None
+
+(** val dec_json_f : nat -> z list -> (json * z list) option **)
+
+let rec dec_json_f fuel l =
+  match fuel with
+  | O -> None
+  | S f ->
+    (match l with
+     | [] -> None
+     | z0 :: r ->
+       (match z0 with
+        | Z0 -> Some (JNull, r)
+        | Zpos p ->
+          (match p with
+           | XI p0 ->
+             (match p0 with
+              | XI p1 ->
+                (match p1 with
+                 | XH ->
+                   (match dec_list (dec_json_f f) r with
+                    | Some p2 -> let (xs, r') = p2 in Some ((JArr xs), r')
+                    | None -> None)
+                 | _ -> None)
+              | XO p1 ->
+                (match p1 with
+                 | XH ->
+                   (match r with
+                    | [] -> None
+                    | b :: r0 -> Some ((JNum (NInf (negb (Z.eqb b Z0)))), r0))
+                 | _ -> None)
+              | XH ->
+                (match r with
+                 | [] -> None
+                 | m :: l0 ->
+                   (match l0 with
+                    | [] -> None
+                    | e :: r0 -> Some ((JNum (NFlt (m, e))), r0))))
+           | XO p0 ->
+             (match p0 with
+              | XI p1 ->
+                (match p1 with
+                 | XH ->
+                   (match dec_str r with
+                    | Some p2 -> let (s, r') = p2 in Some ((JStr s), r')
+                    | None -> None)
+                 | _ -> None)
+              | XO p1 ->
+                (match p1 with
+                 | XI _ -> None
+                 | XO p2 ->
+                   (match p2 with
+                    | XH ->
+                      (match dec_list (dec_pair dec_str (dec_json_f f)) r with
+                       | Some p3 -> let (xs, r') = p3 in Some ((JObj xs), r')
+                       | None -> None)
+                    | _ -> None)
+                 | XH -> Some ((JNum NNegZero), r))
+              | XH ->
+                (match r with
+                 | [] -> None
+                 | z1 :: r0 -> Some ((JNum (NInt z1)), r0)))
+           | XH ->
+             (match r with
+              | [] -> None
+              | b :: r0 -> Some ((JBool (negb (Z.eqb b Z0))), r0)))
+        | Zneg _ -> None))
+
+(** val dec_json : json dec **)
+
+let dec_json l =
+  dec_json_f (S (length l)) l
+
 (** val enc_bool : bool -> z list **)
 
 let enc_bool b =
   (if b then Zpos XH else Z0) :: []
+
+(** val enc_opt : ('a1 -> z list) -> 'a1 option -> z list **)
+
+let enc_opt e = function
+| Some x -> (Zpos XH) :: (e x)
+| None -> Z0 :: []
 
 (** val enc_list : ('a1 -> z list) -> 'a1 list -> z list **)
 
@@ -515,10 +935,401 @@ let rec enc_json = function
     XH)))) :: ((zlen m) :: (flat_map (fun kv ->
                              app (enc_str (fst kv)) (enc_json (snd kv))) m))
 
+(** val enc_key : key -> z list **)
+
+let enc_key = function
+| KName s -> Z0 :: (enc_str s)
+| KIdx i -> (Zpos XH) :: (i :: [])
+
+(** val enc_node : node -> z list **)
+
+let enc_node n0 =
+  app (enc_list enc_key (fst n0)) (enc_json (snd n0))
+
+(** val enc_result : ('a1 -> z list) -> 'a1 result -> z list **)
+
+let enc_result e = function
+| Ok a -> Z0 :: (e a)
+| Err (c, o) ->
+  (Zpos XH) :: ((jperr_code c) :: (enc_opt (fun z0 -> z0 :: []) o))
+| Crash x -> (Zpos (XO XH)) :: ((pyexn_code x) :: [])
+| OutOfFuel -> (Zpos (XI XH)) :: []
+
 (** val bad_request : z list **)
 
 let bad_request =
   (Zneg XH) :: []
+
+type ty3 =
+| TValue
+| TLogical
+| TNodes
+
+type cmpop =
+| OEq
+| ONe
+| OLt
+| OLe
+| OGt
+| OGe
+
+type sel =
+| SName of str
+| SIndex of z
+| SSlice of z option * z option * z option
+| SWild
+| SFilter of expr
+and expr =
+| ELit of json
+| ERel of seg list
+| EAbs of seg list
+| ECall of str * expr list
+| ENot of expr
+| EAnd of expr * expr
+| EOr of expr * expr
+| ECmp of cmpop * expr * expr
+and seg =
+| Child of sel list
+| Desc of sel list
+
+type query = seg list
+
+type pyobj =
+| PVal of json
+| PNodes of node list
+| PNothing
+
+type fimpl =
+| FLength
+| FCount
+| FValue
+| FMatch
+| FSearch
+| FConst of pyobj
+| FFirst
+
+type fdecl = { f_args : ty3 list; f_ret : ty3; f_impl : fimpl }
+
+type registry = (str * fdecl) list
+
+type envcfg = { min_idx : z; max_idx : z; max_depth : nat; reg : registry;
+                rx : (bool -> str -> str -> bool) }
+
+(** val dec_cmpop : cmpop dec **)
+
+let dec_cmpop = function
+| [] -> None
+| z0 :: r ->
+  (match z0 with
+   | Z0 -> Some (OEq, r)
+   | Zpos p ->
+     (match p with
+      | XI p0 ->
+        (match p0 with
+         | XI _ -> None
+         | XO p1 -> (match p1 with
+                     | XH -> Some (OGe, r)
+                     | _ -> None)
+         | XH -> Some (OLe, r))
+      | XO p0 ->
+        (match p0 with
+         | XI _ -> None
+         | XO p1 -> (match p1 with
+                     | XH -> Some (OGt, r)
+                     | _ -> None)
+         | XH -> Some (OLt, r))
+      | XH -> Some (ONe, r))
+   | Zneg _ -> None)
+
+(** val dec_ty3 : ty3 dec **)
+
+let dec_ty3 = function
+| [] -> None
+| z0 :: r ->
+  (match z0 with
+   | Zpos p ->
+     (match p with
+      | XI p0 -> (match p0 with
+                  | XH -> Some (TNodes, r)
+                  | _ -> None)
+      | XO p0 -> (match p0 with
+                  | XH -> Some (TLogical, r)
+                  | _ -> None)
+      | XH -> Some (TValue, r))
+   | _ -> None)
+
+(** val dec_sel_f : nat -> z list -> (sel * z list) option **)
+
+let rec dec_sel_f fuel l =
+  match fuel with
+  | O -> None
+  | S f ->
+    (match l with
+     | [] -> None
+     | z0 :: r ->
+       (match z0 with
+        | Z0 ->
+          (match dec_str r with
+           | Some p -> let (s, r') = p in Some ((SName s), r')
+           | None -> None)
+        | Zpos p ->
+          (match p with
+           | XI p0 -> (match p0 with
+                       | XH -> Some (SWild, r)
+                       | _ -> None)
+           | XO p0 ->
+             (match p0 with
+              | XI _ -> None
+              | XO p1 ->
+                (match p1 with
+                 | XH ->
+                   (match dec_expr_f f r with
+                    | Some p2 -> let (e, r') = p2 in Some ((SFilter e), r')
+                    | None -> None)
+                 | _ -> None)
+              | XH ->
+                (match dec_opt dec_z r with
+                 | Some p1 ->
+                   let (a, r1) = p1 in
+                   (match dec_opt dec_z r1 with
+                    | Some p2 ->
+                      let (b, r2) = p2 in
+                      (match dec_opt dec_z r2 with
+                       | Some p3 ->
+                         let (c, r3) = p3 in Some ((SSlice (a, b, c)), r3)
+                       | None -> None)
+                    | None -> None)
+                 | None -> None))
+           | XH ->
+             (match r with
+              | [] -> None
+              | i :: r0 -> Some ((SIndex i), r0)))
+        | Zneg _ -> None))
+
+(** val dec_expr_f : nat -> z list -> (expr * z list) option **)
+
+and dec_expr_f fuel l =
+  match fuel with
+  | O -> None
+  | S f ->
+    (match l with
+     | [] -> None
+     | z0 :: r ->
+       (match z0 with
+        | Z0 ->
+          (match dec_json r with
+           | Some p -> let (v, r') = p in Some ((ELit v), r')
+           | None -> None)
+        | Zpos p ->
+          (match p with
+           | XI p0 ->
+             (match p0 with
+              | XI p1 ->
+                (match p1 with
+                 | XH ->
+                   (match dec_cmpop r with
+                    | Some p2 ->
+                      let (o, r0) = p2 in
+                      (match dec_expr_f f r0 with
+                       | Some p3 ->
+                         let (a, r1) = p3 in
+                         (match dec_expr_f f r1 with
+                          | Some p4 ->
+                            let (b, r2) = p4 in Some ((ECmp (o, a, b)), r2)
+                          | None -> None)
+                       | None -> None)
+                    | None -> None)
+                 | _ -> None)
+              | XO p1 ->
+                (match p1 with
+                 | XH ->
+                   (match dec_expr_f f r with
+                    | Some p2 ->
+                      let (a, r1) = p2 in
+                      (match dec_expr_f f r1 with
+                       | Some p3 ->
+                         let (b, r2) = p3 in Some ((EAnd (a, b)), r2)
+                       | None -> None)
+                    | None -> None)
+                 | _ -> None)
+              | XH ->
+                (match dec_str r with
+                 | Some p1 ->
+                   let (nm, r1) = p1 in
+                   (match dec_list (dec_expr_f f) r1 with
+                    | Some p2 ->
+                      let (args, r2) = p2 in Some ((ECall (nm, args)), r2)
+                    | None -> None)
+                 | None -> None))
+           | XO p0 ->
+             (match p0 with
+              | XI p1 ->
+                (match p1 with
+                 | XH ->
+                   (match dec_expr_f f r with
+                    | Some p2 ->
+                      let (a, r1) = p2 in
+                      (match dec_expr_f f r1 with
+                       | Some p3 ->
+                         let (b, r2) = p3 in Some ((EOr (a, b)), r2)
+                       | None -> None)
+                    | None -> None)
+                 | _ -> None)
+              | XO p1 ->
+                (match p1 with
+                 | XH ->
+                   (match dec_expr_f f r with
+                    | Some p2 -> let (a, r') = p2 in Some ((ENot a), r')
+                    | None -> None)
+                 | _ -> None)
+              | XH ->
+                (match dec_list (dec_seg_f f) r with
+                 | Some p1 -> let (q, r') = p1 in Some ((EAbs q), r')
+                 | None -> None))
+           | XH ->
+             (match dec_list (dec_seg_f f) r with
+              | Some p0 -> let (q, r') = p0 in Some ((ERel q), r')
+              | None -> None))
+        | Zneg _ -> None))
+
+(** val dec_seg_f : nat -> z list -> (seg * z list) option **)
+
+and dec_seg_f fuel l =
+  match fuel with
+  | O -> None
+  | S f ->
+    (match l with
+     | [] -> None
+     | z0 :: r ->
+       (match z0 with
+        | Z0 ->
+          (match dec_list (dec_sel_f f) r with
+           | Some p -> let (ss, r') = p in Some ((Child ss), r')
+           | None -> None)
+        | Zpos p ->
+          (match p with
+           | XH ->
+             (match dec_list (dec_sel_f f) r with
+              | Some p0 -> let (ss, r') = p0 in Some ((Desc ss), r')
+              | None -> None)
+           | _ -> None)
+        | Zneg _ -> None))
+
+(** val dec_query : query dec **)
+
+let dec_query l =
+  dec_list (dec_seg_f (S (length l))) l
+
+(** val dec_pyobj : pyobj dec **)
+
+let dec_pyobj = function
+| [] -> None
+| z0 :: r ->
+  (match z0 with
+   | Z0 ->
+     (match dec_json r with
+      | Some p -> let (v, r') = p in Some ((PVal v), r')
+      | None -> None)
+   | Zpos p ->
+     (match p with
+      | XI _ -> None
+      | XO p0 -> (match p0 with
+                  | XH -> Some ((PNodes []), r)
+                  | _ -> None)
+      | XH -> Some (PNothing, r))
+   | Zneg _ -> None)
+
+(** val dec_fimpl : fimpl dec **)
+
+let dec_fimpl = function
+| [] -> None
+| z0 :: r ->
+  (match z0 with
+   | Z0 -> Some (FLength, r)
+   | Zpos p ->
+     (match p with
+      | XI p0 ->
+        (match p0 with
+         | XI _ -> None
+         | XO p1 ->
+           (match p1 with
+            | XH ->
+              (match dec_pyobj r with
+               | Some p2 -> let (p3, r') = p2 in Some ((FConst p3), r')
+               | None -> None)
+            | _ -> None)
+         | XH -> Some (FMatch, r))
+      | XO p0 ->
+        (match p0 with
+         | XI p1 -> (match p1 with
+                     | XH -> Some (FFirst, r)
+                     | _ -> None)
+         | XO p1 -> (match p1 with
+                     | XH -> Some (FSearch, r)
+                     | _ -> None)
+         | XH -> Some (FValue, r))
+      | XH -> Some (FCount, r))
+   | Zneg _ -> None)
+
+(** val dec_fdecl : (str * fdecl) dec **)
+
+let dec_fdecl l =
+  match dec_str l with
+  | Some p ->
+    let (nm, r0) = p in
+    (match dec_list dec_ty3 r0 with
+     | Some p0 ->
+       let (args, r1) = p0 in
+       (match dec_ty3 r1 with
+        | Some p1 ->
+          let (ret, r2) = p1 in
+          (match dec_fimpl r2 with
+           | Some p2 ->
+             let (im, r3) = p2 in
+             Some ((nm, { f_args = args; f_ret = ret; f_impl = im }), r3)
+           | None -> None)
+        | None -> None)
+     | None -> None)
+  | None -> None
+
+(** val dec_registry : registry dec **)
+
+let dec_registry =
+  dec_list dec_fdecl
+
+type rxrow = ((bool * str) * str) * bool
+
+(** val dec_rxrow : rxrow dec **)
+
+let dec_rxrow l =
+  match dec_bool l with
+  | Some p ->
+    let (sr, r0) = p in
+    (match dec_str r0 with
+     | Some p0 ->
+       let (s, r1) = p0 in
+       (match dec_str r1 with
+        | Some p1 ->
+          let (p2, r2) = p1 in
+          (match dec_bool r2 with
+           | Some p3 -> let (b, r3) = p3 in Some ((((sr, s), p2), b), r3)
+           | None -> None)
+        | None -> None)
+     | None -> None)
+  | None -> None
+
+(** val rx_lookup : rxrow list -> bool -> str -> str -> bool **)
+
+let rec rx_lookup t sr s p =
+  match t with
+  | [] -> false
+  | r :: t' ->
+    let (p0, b) = r in
+    let (p1, p') = p0 in
+    let (sr', s') = p1 in
+    if (&&) ((&&) (eqb sr sr') (str_eqb s s')) (str_eqb p p')
+    then b
+    else rx_lookup t' sr s p
 
 (** val py_slice_indices :
     z -> z option -> z option -> z option -> (z * z) * z **)
@@ -685,6 +1496,870 @@ let rfc_index len i =
   let n0 = normalize i len in
   if (&&) (Z.leb Z0 n0) (Z.ltb n0 len) then n0 :: [] else []
 
+(** val py_bool : json -> bool **)
+
+let py_bool = function
+| JNull -> false
+| JBool b -> b
+| JNum n0 -> negb (num_is_zero n0)
+| JStr s -> (match s with
+             | [] -> false
+             | _ :: _ -> true)
+| JArr l -> (match l with
+             | [] -> false
+             | _ :: _ -> true)
+| JObj m -> (match m with
+             | [] -> false
+             | _ :: _ -> true)
+
+(** val m_is_truthy : pyobj -> bool **)
+
+let m_is_truthy = function
+| PVal v -> (match v with
+             | JNull -> true
+             | _ -> py_bool v)
+| PNodes ns -> (match ns with
+                | [] -> false
+                | _ :: _ -> true)
+| PNothing -> false
+
+(** val m_json_eq : json -> json -> bool **)
+
+let rec m_json_eq a b =
+  match a with
+  | JNull -> (match b with
+              | JNull -> true
+              | _ -> false)
+  | JBool x -> (match b with
+                | JBool y -> eqb x y
+                | _ -> false)
+  | JNum x -> (match b with
+               | JNum y -> num_eqb x y
+               | _ -> false)
+  | JStr x -> (match b with
+               | JStr y -> str_eqb x y
+               | _ -> false)
+  | JArr x ->
+    (match b with
+     | JArr y ->
+       let rec go x0 y0 =
+         match x0 with
+         | [] -> (match y0 with
+                  | [] -> true
+                  | _ :: _ -> false)
+         | a' :: x' ->
+           (match y0 with
+            | [] -> false
+            | b' :: y' -> (&&) (m_json_eq a' b') (go x' y'))
+       in go x y
+     | _ -> false)
+  | JObj x ->
+    (match b with
+     | JObj y ->
+       (&&) (Nat.eqb (length x) (length y))
+         (let rec go = function
+          | [] -> true
+          | p :: x' ->
+            let (k, v) = p in
+            (match find_assoc k y with
+             | Some v' -> (&&) (m_json_eq v v') (go x')
+             | None -> false)
+          in go x)
+     | _ -> false)
+
+(** val m_eq : pyobj -> pyobj -> bool **)
+
+let m_eq left0 right0 = match right0 with
+| PNodes _ ->
+  (match right0 with
+   | PVal l -> (match left0 with
+                | PVal r -> m_json_eq l r
+                | _ -> false)
+   | PNodes ln ->
+     (match left0 with
+      | PNodes rn ->
+        (match ln with
+         | [] -> (match rn with
+                  | [] -> true
+                  | _ :: _ -> false)
+         | _ :: _ -> false)
+      | _ ->
+        (match ln with
+         | [] -> (match left0 with
+                  | PNothing -> true
+                  | _ -> false)
+         | _ :: _ -> false))
+   | PNothing -> (match left0 with
+                  | PNothing -> true
+                  | _ -> false))
+| _ ->
+  (match left0 with
+   | PVal l -> (match right0 with
+                | PVal r -> m_json_eq l r
+                | _ -> false)
+   | PNodes ln ->
+     (match right0 with
+      | PNodes rn ->
+        (match ln with
+         | [] -> (match rn with
+                  | [] -> true
+                  | _ :: _ -> false)
+         | _ :: _ -> false)
+      | _ ->
+        (match ln with
+         | [] -> (match right0 with
+                  | PNothing -> true
+                  | _ -> false)
+         | _ :: _ -> false))
+   | PNothing -> (match right0 with
+                  | PNothing -> true
+                  | _ -> false))
+
+(** val m_lt : pyobj -> pyobj -> bool **)
+
+let m_lt lhs rhs =
+  match lhs with
+  | PVal v ->
+    (match v with
+     | JNum a ->
+       (match rhs with
+        | PVal v0 -> (match v0 with
+                      | JNum b -> num_ltb a b
+                      | _ -> false)
+        | _ -> false)
+     | JStr a ->
+       (match rhs with
+        | PVal v0 -> (match v0 with
+                      | JStr b -> str_ltb a b
+                      | _ -> false)
+        | _ -> false)
+     | _ -> false)
+  | _ -> false
+
+(** val m_cmp : cmpop -> pyobj -> pyobj -> bool **)
+
+let m_cmp o l r =
+  match o with
+  | OEq -> m_eq l r
+  | ONe -> negb (m_eq l r)
+  | OLt -> m_lt l r
+  | OLe -> (||) (m_lt l r) (m_eq l r)
+  | OGt -> m_lt r l
+  | OGe -> (||) (m_lt r l) (m_eq l r)
+
+(** val mk_child : node -> key -> json -> node **)
+
+let mk_child n0 k v =
+  ((app (fst n0) (k :: [])), v)
+
+(** val m_visit : nat -> nat -> key list -> json -> node list result **)
+
+let rec m_visit limit d loc v =
+  if Nat.ltb limit d
+  then Err (ERecursion, None)
+  else (match v with
+        | JArr l ->
+          bind
+            (let rec go i = function
+             | [] -> Ok []
+             | x :: xs ->
+               bind
+                 (if is_container x
+                  then m_visit limit (S d) (app loc ((KIdx i) :: [])) x
+                  else Ok []) (fun a ->
+                 bind (go (Z.add i (Zpos XH)) xs) (fun b -> Ok (app a b)))
+             in go Z0 l) (fun rest -> Ok ((loc, v) :: rest))
+        | JObj m ->
+          bind
+            (let rec go = function
+             | [] -> Ok []
+             | p :: xs ->
+               let (k, x) = p in
+               bind
+                 (if is_container x
+                  then m_visit limit (S d) (app loc ((KName k) :: [])) x
+                  else Ok []) (fun a -> bind (go xs) (fun b -> Ok (app a b)))
+             in go m) (fun rest -> Ok ((loc, v) :: rest))
+        | _ -> Ok ((loc, v) :: []))
+
+(** val m_py_len : pyobj -> z option **)
+
+let m_py_len = function
+| PVal v ->
+  (match v with
+   | JStr s -> Some (zlen s)
+   | JArr l -> Some (zlen l)
+   | JObj m -> Some (zlen m)
+   | _ -> None)
+| PNodes ns -> Some (zlen ns)
+| PNothing -> None
+
+(** val m_apply : envcfg -> fdecl -> pyobj list -> pyobj result **)
+
+let m_apply cfg d args =
+  match d.f_impl with
+  | FLength ->
+    (match args with
+     | [] -> Crash XTypeError
+     | o :: l ->
+       (match l with
+        | [] ->
+          (match m_py_len o with
+           | Some n0 -> Ok (PVal (JNum (NInt n0)))
+           | None -> Ok PNothing)
+        | _ :: _ -> Crash XTypeError))
+  | FCount ->
+    (match args with
+     | [] -> Crash XTypeError
+     | o :: l ->
+       (match l with
+        | [] ->
+          (match m_py_len o with
+           | Some n0 -> Ok (PVal (JNum (NInt n0)))
+           | None -> Crash XTypeError)
+        | _ :: _ -> Crash XTypeError))
+  | FValue ->
+    (match args with
+     | [] -> Crash XTypeError
+     | o :: l ->
+       (match l with
+        | [] ->
+          (match o with
+           | PNodes ns ->
+             (match ns with
+              | [] -> Ok PNothing
+              | n0 :: l0 ->
+                (match l0 with
+                 | [] -> Ok (PVal (snd n0))
+                 | _ :: _ -> Ok PNothing))
+           | _ ->
+             (match m_py_len o with
+              | Some z0 ->
+                (match z0 with
+                 | Zpos p ->
+                   (match p with
+                    | XH -> Crash XAttribute
+                    | _ -> Ok PNothing)
+                 | _ -> Ok PNothing)
+              | None -> Crash XTypeError))
+        | _ :: _ -> Crash XTypeError))
+  | FMatch ->
+    (match args with
+     | [] -> Crash XTypeError
+     | s :: l ->
+       (match l with
+        | [] -> Crash XTypeError
+        | p :: l0 ->
+          (match l0 with
+           | [] ->
+             (match s with
+              | PVal v ->
+                (match v with
+                 | JStr s' ->
+                   (match p with
+                    | PVal v0 ->
+                      (match v0 with
+                       | JStr p' -> Ok (PVal (JBool (cfg.rx false s' p')))
+                       | _ -> Ok (PVal (JBool false)))
+                    | _ -> Ok (PVal (JBool false)))
+                 | _ -> Ok (PVal (JBool false)))
+              | _ -> Ok (PVal (JBool false)))
+           | _ :: _ -> Crash XTypeError)))
+  | FSearch ->
+    (match args with
+     | [] -> Crash XTypeError
+     | s :: l ->
+       (match l with
+        | [] -> Crash XTypeError
+        | p :: l0 ->
+          (match l0 with
+           | [] ->
+             (match s with
+              | PVal v ->
+                (match v with
+                 | JStr s' ->
+                   (match p with
+                    | PVal v0 ->
+                      (match v0 with
+                       | JStr p' -> Ok (PVal (JBool (cfg.rx true s' p')))
+                       | _ -> Ok (PVal (JBool false)))
+                    | _ -> Ok (PVal (JBool false)))
+                 | _ -> Ok (PVal (JBool false)))
+              | _ -> Ok (PVal (JBool false)))
+           | _ :: _ -> Crash XTypeError)))
+  | FConst p -> Ok p
+  | FFirst -> (match args with
+               | [] -> Crash XTypeError
+               | o :: _ -> Ok o)
+
+(** val m_unpack : ty3 list -> pyobj list -> pyobj list result **)
+
+let rec m_unpack tys = function
+| [] -> Ok []
+| a :: args' ->
+  (match tys with
+   | [] -> Crash XIndexError
+   | t :: tys' ->
+     let a' =
+       match t with
+       | TValue ->
+         (match a with
+          | PNodes ns ->
+            (match ns with
+             | [] -> PNothing
+             | n0 :: l -> (match l with
+                           | [] -> PVal (snd n0)
+                           | _ :: _ -> a))
+          | _ -> a)
+       | TLogical -> PVal (JBool (m_is_truthy a))
+       | TNodes -> a
+     in
+     bind (m_unpack tys' args') (fun r -> Ok (a' :: r)))
+
+(** val m_unwrap1 : pyobj -> pyobj **)
+
+let m_unwrap1 o = match o with
+| PNodes ns ->
+  (match ns with
+   | [] -> o
+   | n0 :: l -> (match l with
+                 | [] -> PVal (snd n0)
+                 | _ :: _ -> o))
+| _ -> o
+
+(** val m_seg : envcfg -> json -> seg -> node list -> node list result **)
+
+let m_seg cfg =
+  let rec m_sel root s n0 =
+    match s with
+    | SName k ->
+      (match snd n0 with
+       | JNull -> Ok []
+       | JBool _ -> Ok []
+       | JNum _ -> Ok []
+       | JStr _ -> Ok []
+       | JArr _ -> Ok []
+       | JObj m ->
+         (match find_assoc k m with
+          | Some v -> Ok ((mk_child n0 (KName k) v) :: [])
+          | None -> Ok []))
+    | SIndex i ->
+      (match snd n0 with
+       | JArr l ->
+         Ok
+           (map (fun p -> mk_child n0 (KIdx (fst p)) (snd p))
+             (m_index_select l i))
+       | _ -> Ok [])
+    | SSlice (a, b, c) ->
+      (match snd n0 with
+       | JArr l ->
+         Ok
+           (map (fun p -> mk_child n0 (KIdx (fst p)) (snd p))
+             (m_slice_select l a b c))
+       | _ -> Ok [])
+    | SWild -> Ok (children n0)
+    | SFilter e ->
+      let rec go = function
+      | [] -> Ok []
+      | c :: cs' ->
+        bind (m_expr root (snd c) e) (fun o ->
+          bind (go cs') (fun r -> Ok (if m_is_truthy o then c :: r else r)))
+      in go (children n0)
+  and m_expr root cur = function
+  | ELit v -> Ok (PVal v)
+  | ERel q ->
+    bind
+      (let rec segs q0 ns =
+         match q0 with
+         | [] -> Ok ns
+         | sg :: q' -> bind (m_seg0 root sg ns) (fun ns' -> segs q' ns')
+       in segs q (([], cur) :: [])) (fun ns -> Ok (PNodes ns))
+  | EAbs q ->
+    bind
+      (let rec segs q0 ns =
+         match q0 with
+         | [] -> Ok ns
+         | sg :: q' -> bind (m_seg0 root sg ns) (fun ns' -> segs q' ns')
+       in segs q (([], root) :: [])) (fun ns -> Ok (PNodes ns))
+  | ECall (f, args) ->
+    (match find_assoc f cfg.reg with
+     | Some d ->
+       bind
+         (let rec go = function
+          | [] -> Ok []
+          | a :: args' ->
+            bind (m_expr root cur a) (fun x ->
+              bind (go args') (fun r -> Ok (x :: r)))
+          in go args) (fun vs ->
+         bind (m_unpack d.f_args vs) (fun us -> m_apply cfg d us))
+     | None -> Ok PNothing)
+  | ENot a ->
+    bind (m_expr root cur a) (fun o -> Ok (PVal (JBool
+      (negb (m_is_truthy o)))))
+  | EAnd (a, b) ->
+    bind (m_expr root cur a) (fun x ->
+      bind (m_expr root cur b) (fun y -> Ok (PVal (JBool
+        ((&&) (m_is_truthy x) (m_is_truthy y))))))
+  | EOr (a, b) ->
+    bind (m_expr root cur a) (fun x ->
+      bind (m_expr root cur b) (fun y -> Ok (PVal (JBool
+        ((||) (m_is_truthy x) (m_is_truthy y))))))
+  | ECmp (o, a, b) ->
+    bind (m_expr root cur a) (fun x ->
+      bind (m_expr root cur b) (fun y -> Ok (PVal (JBool
+        (m_cmp o (m_unwrap1 x) (m_unwrap1 y))))))
+  and m_seg0 root sg ns =
+    match sg with
+    | Child ss ->
+      flat_mapM (fun n0 ->
+        let rec go = function
+        | [] -> Ok []
+        | s :: ss' ->
+          bind (m_sel root s n0) (fun a ->
+            bind (go ss') (fun b -> Ok (app a b)))
+        in go ss) ns
+    | Desc ss ->
+      flat_mapM (fun n0 ->
+        bind (m_visit cfg.max_depth (S O) (fst n0) (snd n0)) (fun vs ->
+          flat_mapM (fun v ->
+            let rec go = function
+            | [] -> Ok []
+            | s :: ss' ->
+              bind (m_sel root s v) (fun a ->
+                bind (go ss') (fun b -> Ok (app a b)))
+            in go ss) vs)) ns
+  in m_seg0
+
+(** val m_segs :
+    envcfg -> json -> seg list -> node list -> node list result **)
+
+let rec m_segs cfg root q ns =
+  match q with
+  | [] -> Ok ns
+  | sg :: q' ->
+    bind (m_seg cfg root sg ns) (fun ns' -> m_segs cfg root q' ns')
+
+(** val m_find : envcfg -> query -> json -> node list result **)
+
+let m_find cfg q v =
+  m_segs cfg v q (([], v) :: [])
+
+type comparand =
+| Nothing
+| Val of json
+
+(** val json_eq : json -> json -> bool **)
+
+let rec json_eq a b =
+  match a with
+  | JNull -> (match b with
+              | JNull -> true
+              | _ -> false)
+  | JBool x -> (match b with
+                | JBool y -> eqb x y
+                | _ -> false)
+  | JNum x -> (match b with
+               | JNum y -> num_eqb x y
+               | _ -> false)
+  | JStr x -> (match b with
+               | JStr y -> str_eqb x y
+               | _ -> false)
+  | JArr x ->
+    (match b with
+     | JArr y ->
+       let rec go x0 y0 =
+         match x0 with
+         | [] -> (match y0 with
+                  | [] -> true
+                  | _ :: _ -> false)
+         | a' :: x' ->
+           (match y0 with
+            | [] -> false
+            | b' :: y' -> (&&) (json_eq a' b') (go x' y'))
+       in go x y
+     | _ -> false)
+  | JObj x ->
+    (match b with
+     | JObj y ->
+       (&&) (Nat.eqb (length x) (length y))
+         (let rec go = function
+          | [] -> true
+          | p :: x' ->
+            let (k, v) = p in
+            (match find_assoc k y with
+             | Some v' -> (&&) (json_eq v v') (go x')
+             | None -> false)
+          in go x)
+     | _ -> false)
+
+(** val c_eq : comparand -> comparand -> bool **)
+
+let c_eq a b =
+  match a with
+  | Nothing -> (match b with
+                | Nothing -> true
+                | Val _ -> false)
+  | Val x -> (match b with
+              | Nothing -> false
+              | Val y -> json_eq x y)
+
+(** val c_lt : comparand -> comparand -> bool **)
+
+let c_lt a b =
+  match a with
+  | Nothing -> false
+  | Val v ->
+    (match v with
+     | JNum x ->
+       (match b with
+        | Nothing -> false
+        | Val v0 -> (match v0 with
+                     | JNum y -> num_ltb x y
+                     | _ -> false))
+     | JStr x ->
+       (match b with
+        | Nothing -> false
+        | Val v0 -> (match v0 with
+                     | JStr y -> str_ltb x y
+                     | _ -> false))
+     | _ -> false)
+
+(** val cmp : cmpop -> comparand -> comparand -> bool **)
+
+let cmp o a b =
+  match o with
+  | OEq -> c_eq a b
+  | ONe -> negb (c_eq a b)
+  | OLt -> c_lt a b
+  | OLe -> (||) (c_lt a b) (c_eq a b)
+  | OGt -> c_lt b a
+  | OGe -> (||) (c_lt b a) (c_eq a b)
+
+(** val child_at : node -> key -> json -> node **)
+
+let child_at n0 k v =
+  ((app (fst n0) (k :: [])), v)
+
+(** val descendants : key list -> json -> node list **)
+
+let rec descendants loc v =
+  (loc,
+    v) :: (match v with
+           | JArr l ->
+             let rec go i = function
+             | [] -> []
+             | x :: xs ->
+               app (descendants (app loc ((KIdx i) :: [])) x)
+                 (go (Z.add i (Zpos XH)) xs)
+             in go Z0 l
+           | JObj m ->
+             let rec go = function
+             | [] -> []
+             | p :: xs ->
+               let (k, x) = p in
+               app (descendants (app loc ((KName k) :: [])) x) (go xs)
+             in go m
+           | _ -> [])
+
+(** val select_idx : node -> json list -> z list -> node list **)
+
+let select_idx n0 l idxs =
+  flat_map (fun i ->
+    match znth l i with
+    | Some x -> (child_at n0 (KIdx i) x) :: []
+    | None -> []) idxs
+
+type sval =
+| SV of comparand
+| SL of bool
+| SN of node list
+
+(** val as_val : sval -> comparand **)
+
+let as_val = function
+| SV c -> c
+| _ -> Nothing
+
+(** val as_bool : sval -> bool **)
+
+let as_bool = function
+| SV _ -> false
+| SL b -> b
+| SN ns -> (match ns with
+            | [] -> false
+            | _ :: _ -> true)
+
+(** val as_nodes : sval -> node list **)
+
+let as_nodes = function
+| SN ns -> ns
+| _ -> []
+
+(** val nonempty : 'a1 list -> bool **)
+
+let nonempty = function
+| [] -> false
+| _ :: _ -> true
+
+(** val conv_nodes : ty3 -> node list -> sval **)
+
+let conv_nodes want ns =
+  match want with
+  | TValue ->
+    SV
+      (match ns with
+       | [] -> Nothing
+       | n0 :: l -> (match l with
+                     | [] -> Val (snd n0)
+                     | _ :: _ -> Nothing))
+  | TLogical -> SL (nonempty ns)
+  | TNodes -> SN ns
+
+(** val coerce : ty3 -> ty3 -> sval -> sval **)
+
+let coerce want ret r =
+  match want with
+  | TLogical -> (match ret with
+                 | TNodes -> SL (nonempty (as_nodes r))
+                 | _ -> r)
+  | _ -> r
+
+(** val sval_of_pyobj : ty3 -> pyobj -> sval **)
+
+let sval_of_pyobj t p =
+  match t with
+  | TValue -> (match p with
+               | PVal v -> SV (Val v)
+               | _ -> SV Nothing)
+  | TLogical ->
+    (match p with
+     | PVal v -> (match v with
+                  | JBool b -> SL b
+                  | _ -> SL false)
+     | _ -> SL false)
+  | TNodes -> (match p with
+               | PNodes ns -> SN ns
+               | _ -> SN [])
+
+(** val fn_sem :
+    (bool -> str -> str -> bool) -> fdecl -> sval list -> sval **)
+
+let fn_sem rx0 d args =
+  match d.f_impl with
+  | FLength ->
+    (match args with
+     | [] -> SV Nothing
+     | s0 :: l0 ->
+       (match s0 with
+        | SV c ->
+          (match c with
+           | Nothing -> SV Nothing
+           | Val v ->
+             (match v with
+              | JStr s ->
+                (match l0 with
+                 | [] -> SV (Val (JNum (NInt (zlen s))))
+                 | _ :: _ -> SV Nothing)
+              | JArr l ->
+                (match l0 with
+                 | [] -> SV (Val (JNum (NInt (zlen l))))
+                 | _ :: _ -> SV Nothing)
+              | JObj m ->
+                (match l0 with
+                 | [] -> SV (Val (JNum (NInt (zlen m))))
+                 | _ :: _ -> SV Nothing)
+              | _ -> SV Nothing))
+        | _ -> SV Nothing))
+  | FCount ->
+    (match args with
+     | [] -> SV Nothing
+     | s :: l ->
+       (match s with
+        | SN ns ->
+          (match l with
+           | [] -> SV (Val (JNum (NInt (zlen ns))))
+           | _ :: _ -> SV Nothing)
+        | _ -> SV Nothing))
+  | FValue ->
+    (match args with
+     | [] -> SV Nothing
+     | s :: l ->
+       (match s with
+        | SN ns ->
+          (match ns with
+           | [] -> SV Nothing
+           | n0 :: l0 ->
+             (match l0 with
+              | [] ->
+                (match l with
+                 | [] -> SV (Val (snd n0))
+                 | _ :: _ -> SV Nothing)
+              | _ :: _ -> SV Nothing))
+        | _ -> SV Nothing))
+  | FMatch ->
+    (match args with
+     | [] -> SL false
+     | s0 :: l ->
+       (match s0 with
+        | SV c ->
+          (match c with
+           | Nothing -> SL false
+           | Val v ->
+             (match v with
+              | JStr s ->
+                (match l with
+                 | [] -> SL false
+                 | s1 :: l0 ->
+                   (match s1 with
+                    | SV c0 ->
+                      (match c0 with
+                       | Nothing -> SL false
+                       | Val v0 ->
+                         (match v0 with
+                          | JStr p ->
+                            (match l0 with
+                             | [] -> SL (rx0 false s p)
+                             | _ :: _ -> SL false)
+                          | _ -> SL false))
+                    | _ -> SL false))
+              | _ -> SL false))
+        | _ -> SL false))
+  | FSearch ->
+    (match args with
+     | [] -> SL false
+     | s0 :: l ->
+       (match s0 with
+        | SV c ->
+          (match c with
+           | Nothing -> SL false
+           | Val v ->
+             (match v with
+              | JStr s ->
+                (match l with
+                 | [] -> SL false
+                 | s1 :: l0 ->
+                   (match s1 with
+                    | SV c0 ->
+                      (match c0 with
+                       | Nothing -> SL false
+                       | Val v0 ->
+                         (match v0 with
+                          | JStr p ->
+                            (match l0 with
+                             | [] -> SL (rx0 true s p)
+                             | _ :: _ -> SL false)
+                          | _ -> SL false))
+                    | _ -> SL false))
+              | _ -> SL false))
+        | _ -> SL false))
+  | FConst p -> sval_of_pyobj d.f_ret p
+  | FFirst -> (match args with
+               | [] -> SV Nothing
+               | a :: _ -> a)
+
+(** val s_seg :
+    registry -> (bool -> str -> str -> bool) -> json -> seg -> node list ->
+    node list **)
+
+let s_seg rg rx0 =
+  let rec s_sel root s n0 =
+    match s with
+    | SName k ->
+      (match snd n0 with
+       | JNull -> []
+       | JBool _ -> []
+       | JNum _ -> []
+       | JStr _ -> []
+       | JArr _ -> []
+       | JObj m ->
+         (match find_assoc k m with
+          | Some v -> (child_at n0 (KName k) v) :: []
+          | None -> []))
+    | SIndex i ->
+      (match snd n0 with
+       | JArr l -> select_idx n0 l (rfc_index (zlen l) i)
+       | _ -> [])
+    | SSlice (a, b, c) ->
+      (match snd n0 with
+       | JArr l -> select_idx n0 l (rfc_slice (zlen l) a b c)
+       | _ -> [])
+    | SWild -> children n0
+    | SFilter e ->
+      filter (fun c -> as_bool (s_expr TLogical root (snd c) e)) (children n0)
+  and s_expr want root cur = function
+  | ELit v -> SV (Val v)
+  | ERel q ->
+    conv_nodes want
+      (let rec segs q0 ns =
+         match q0 with
+         | [] -> ns
+         | sg :: q' -> segs q' (s_seg0 root sg ns)
+       in segs q (([], cur) :: []))
+  | EAbs q ->
+    conv_nodes want
+      (let rec segs q0 ns =
+         match q0 with
+         | [] -> ns
+         | sg :: q' -> segs q' (s_seg0 root sg ns)
+       in segs q (([], root) :: []))
+  | ECall (f, args) ->
+    (match find_assoc f rg with
+     | Some d ->
+       coerce want d.f_ret
+         (fn_sem rx0 d
+           (let rec go tys = function
+            | [] -> []
+            | a :: args' ->
+              (match tys with
+               | [] -> []
+               | t :: tys' -> (s_expr t root cur a) :: (go tys' args'))
+            in go d.f_args args))
+     | None -> SV Nothing)
+  | ENot a -> SL (negb (as_bool (s_expr TLogical root cur a)))
+  | EAnd (a, b) ->
+    SL
+      ((&&) (as_bool (s_expr TLogical root cur a))
+        (as_bool (s_expr TLogical root cur b)))
+  | EOr (a, b) ->
+    SL
+      ((||) (as_bool (s_expr TLogical root cur a))
+        (as_bool (s_expr TLogical root cur b)))
+  | ECmp (o, a, b) ->
+    SL
+      (cmp o (as_val (s_expr TValue root cur a))
+        (as_val (s_expr TValue root cur b)))
+  and s_seg0 root sg ns =
+    match sg with
+    | Child ss ->
+      flat_map (fun n0 ->
+        let rec go = function
+        | [] -> []
+        | s :: ss' -> app (s_sel root s n0) (go ss')
+        in go ss) ns
+    | Desc ss ->
+      flat_map (fun n0 ->
+        flat_map (fun d ->
+          let rec go = function
+          | [] -> []
+          | s :: ss' -> app (s_sel root s d) (go ss')
+          in go ss) (descendants (fst n0) (snd n0))) ns
+  in s_seg0
+
+(** val s_segs :
+    registry -> (bool -> str -> str -> bool) -> json -> seg list -> node list
+    -> node list **)
+
+let rec s_segs rg rx0 root q ns =
+  match q with
+  | [] -> ns
+  | sg :: q' -> s_segs rg rx0 root q' (s_seg rg rx0 root sg ns)
+
+(** val sem :
+    registry -> (bool -> str -> str -> bool) -> query -> json -> node list **)
+
+let sem rg rx0 q v =
+  s_segs rg rx0 v q (([], v) :: [])
+
 (** val iota_json : z -> json list **)
 
 let iota_json len =
@@ -695,11 +2370,67 @@ let iota_json len =
 let enc_sel r =
   enc_list (fun p -> (fst p) :: (enc_json (snd p))) r
 
+(** val mk_cfg : nat -> registry -> rxrow list -> envcfg **)
+
+let mk_cfg depth rg t =
+  { min_idx =
+    (Z.add (Z.opp (Z.pow (Zpos (XO XH)) (Zpos (XI (XO (XI (XO (XI XH))))))))
+      (Zpos XH)); max_idx =
+    (Z.sub (Z.pow (Zpos (XO XH)) (Zpos (XI (XO (XI (XO (XI XH))))))) (Zpos
+      XH)); max_depth = depth; reg = rg; rx = (rx_lookup t) }
+
+(** val op_find : z list -> z list **)
+
+let op_find r =
+  match dec_nat r with
+  | Some p ->
+    let (depth, r0) = p in
+    (match dec_registry r0 with
+     | Some p0 ->
+       let (rg, r1) = p0 in
+       (match dec_list dec_rxrow r1 with
+        | Some p1 ->
+          let (t, r2) = p1 in
+          (match dec_query r2 with
+           | Some p2 ->
+             let (q, r3) = p2 in
+             (match dec_json r3 with
+              | Some p3 ->
+                let (v, _) = p3 in
+                enc_result (enc_list enc_node)
+                  (m_find (mk_cfg depth rg t) q v)
+              | None -> bad_request)
+           | None -> bad_request)
+        | None -> bad_request)
+     | None -> bad_request)
+  | None -> bad_request
+
+(** val op_sem : z list -> z list **)
+
+let op_sem r =
+  match dec_registry r with
+  | Some p ->
+    let (rg, r1) = p in
+    (match dec_list dec_rxrow r1 with
+     | Some p0 ->
+       let (t, r2) = p0 in
+       (match dec_query r2 with
+        | Some p1 ->
+          let (q, r3) = p1 in
+          (match dec_json r3 with
+           | Some p2 ->
+             let (v, _) = p2 in
+             Z0 :: (enc_list enc_node (sem rg (rx_lookup t) q v))
+           | None -> bad_request)
+        | None -> bad_request)
+     | None -> bad_request)
+  | None -> bad_request
+
 (** val dispatch : z list -> z list **)
 
 let dispatch = function
 | [] -> bad_request
-| z0 :: l ->
+| z0 :: r ->
   (match z0 with
    | Zpos p ->
      (match p with
@@ -707,7 +2438,19 @@ let dispatch = function
         (match p0 with
          | XI p1 ->
            (match p1 with
-            | XI _ -> bad_request
+            | XI p2 ->
+              (match p2 with
+               | XO p3 ->
+                 (match p3 with
+                  | XO p4 ->
+                    (match p4 with
+                     | XI p5 ->
+                       (match p5 with
+                        | XH -> op_sem r
+                        | _ -> bad_request)
+                     | _ -> bad_request)
+                  | _ -> bad_request)
+               | _ -> bad_request)
             | XO p2 ->
               (match p2 with
                | XI p3 ->
@@ -717,10 +2460,10 @@ let dispatch = function
                      | XI p5 ->
                        (match p5 with
                         | XH ->
-                          (match l with
+                          (match r with
                            | [] -> bad_request
-                           | len :: r ->
-                             (match dec_opt dec_z r with
+                           | len :: r0 ->
+                             (match dec_opt dec_z r0 with
                               | Some p6 ->
                                 let (s, r1) = p6 in
                                 (match dec_opt dec_z r1 with
@@ -739,10 +2482,10 @@ let dispatch = function
                   | _ -> bad_request)
                | _ -> bad_request)
             | XH ->
-              (match l with
+              (match r with
                | [] -> bad_request
-               | len :: r ->
-                 (match dec_opt dec_z r with
+               | len :: r0 ->
+                 (match dec_opt dec_z r0 with
                   | Some p2 ->
                     let (s, r1) = p2 in
                     (match dec_opt dec_z r1 with
@@ -755,7 +2498,8 @@ let dispatch = function
                         | None -> bad_request)
                      | None -> bad_request)
                   | None -> bad_request)))
-         | _ -> bad_request)
+         | XO _ -> bad_request
+         | XH -> op_find r)
       | XO p0 ->
         (match p0 with
          | XO p1 ->
@@ -769,10 +2513,10 @@ let dispatch = function
                      | XI p5 ->
                        (match p5 with
                         | XH ->
-                          (match l with
+                          (match r with
                            | [] -> bad_request
-                           | len :: l0 ->
-                             (match l0 with
+                           | len :: l ->
+                             (match l with
                               | [] -> bad_request
                               | i :: _ ->
                                 enc_list (fun z1 -> z1 :: [])
@@ -784,10 +2528,10 @@ let dispatch = function
             | XO p2 ->
               (match p2 with
                | XH ->
-                 (match l with
+                 (match r with
                   | [] -> bad_request
-                  | len :: l0 ->
-                    (match l0 with
+                  | len :: l ->
+                    (match l with
                      | [] -> bad_request
                      | i :: _ -> enc_sel (m_index_select (iota_json len) i)))
                | _ -> bad_request)
